@@ -39,7 +39,8 @@ def fields():
     f = {}
     f['mask4'] = [('0.0.0.0/0', True, {'p': '0.0.0.0/0'}), ('10.1.2.3/24', None, None), ('10.1.2.3/32', True, {'p': '10.1.2.3/32'}), ('10.1.2.0/33', False, None), ('10.1.2.0/-1', False, None), ('10.1.2.0/256', False, None), ('10.1.2.256/24', False, None)]
     f['mask6'] = [('2001:db8::1/128', True, {'p': '2001:db8::1/128', 'fam': 'v6u', 'nh': '2001:db8::9'}), ('2001:db8::/129', False, None), ('::/0', True, {'p': '::/0', 'fam': 'v6u', 'nh': '2001:db8::9'}), ('2001:db8::/-1', False, None), ('2001:db8:::/64', False, None), ('2001:db8::10000/128', False, None)]
-    f['nexthop'] = [('10.0.0.255', True, {'nh': '10.0.0.255'}), ('999.2.3.4', False, None), ('10.0.0', False, None), ('self', True, {'nh': 'self'})]
+    f['nexthop'] = [('10.0.0.255', True, {'nh': '10.0.0.255'}), ('999.2.3.4', False, None), ('10.0.0', False, None), ('self', True, {'nh': 'self'}),
+                    ('2001:db8::9', True, {'nh': '2001:db8::9'})]  # (RFC 8950, negotiated on every session of this scenario: the IPv4 prefix leaves in MP_REACH_NLRI)
     for kw, key in (('med', 'med'), ('local-preference', 'lp')):
         f[kw] = [(f'{kw} 0', True, {'attrs': {key: 0}}), (f'{kw} {U32}', True, {'attrs': {key: U32}}), (f'{kw} {U32 + 1}', False, None), (f'{kw} -1', False, None), (f'{kw} 99999999999999999999', False, None), (f'{kw} banana', False, None)]
     f['aspath'] = [
@@ -132,6 +133,9 @@ def more_fields(f: dict) -> None:
     ]  # fmt: skip
 
     f['flow'] += [
+        # match statements written against the component order: what is sent is ordered by component type (RFC 8955 4.2)
+        (('source 10.0.0.1/32; destination 10.0.0.2/32;', 'discard;'), True, {'kind': 'flow', 'afi': 1, 'comps': [[1, ['10.0.0.2', 32, 0]], src4], 'ecs': d0}),
+        (('packet-length =1500; protocol =6; source 10.0.0.1/32;', 'discard;'), True, {'kind': 'flow', 'afi': 1, 'comps': [src4, num(3, 6), num(10, 1500)], 'ecs': d0}),
         # an offset a byte cannot hold; components of both address families in one rule; a rate an IEEE float holds exactly
         (('destination 2001:db8::/64/300;', 'discard;'), False, None),
         (('destination 10.0.0.1/32; source 2001:db8::/32/0;', 'discard;'), False, None),
@@ -187,6 +191,7 @@ def kinds_for(rng) -> list[dict]:
     for k in ks:
         k.pop('ap_local', None)
         k.pop('ap_peer', None)
+        k['nexthop_ext'] = True
     return ks
 
 
